@@ -406,6 +406,18 @@ def run_shared(c) -> dict:
         except Exception as e:
             f[f"C13:shared-parameters:kid-assignment-raises:{type(e).__name__}"] = f"key #{i} of {len(objs)} keys ({c['how']}, {c['assign']}): {type(e).__name__}: {e}"
             return f
+    # keys that carry one explicit kid (alternatives under one logical name, RFC 7517 4.5; the same key listed twice) put into one
+    # set: a kid that is present is never replaced
+    try:
+        same = [{"oct": OctKey, "RSA": RSAKey, "EC": ECKey, "OKP": OKPKey}[r["kty"]].import_key({**rk.export_jwk(r), "kid": "2024-09"}) for r in refs[:2]]
+        same.append(same[0])
+        ks2 = KeySet(same)
+        ks2.as_dict(private=False)
+        got = [k.kid for k in same] + [k.as_dict().get("kid") for k in same]
+        if set(got) != {"2024-09"}:
+            f["C13:existing-kid-replaced:shared-kid-in-one-set"] = f"keys given the kid '2024-09' have kids {got!r} after KeySet([...]) / as_dict()"
+    except Exception as e:
+        f[f"C13:shared-kid-in-one-set-raises:{type(e).__name__}"] = str(e)
     for i, (k, ref) in enumerate(zip(objs, refs)):
         want = rk.thumbprint(ref)
         if k.kid != want or k.as_dict().get("kid") != want:
